@@ -48,6 +48,25 @@ theorem C14_endpoint_closes (s : Nat) (e : Bool) (ds : List Dec) :
 
 example : (run (endpointProg 2 false) [.ok, .cancel]).out = .raised .cancel := by decide +kernel
 
+/-- **A second `AsyncStreamEndpoint.aclose()` returns promptly and touches nothing**: after a first close that ended in any
+    way (returned, failed, cancelled at any suspension) the second one finds the transport closed, goes through at most
+    one suspension point (the checkpoint of the already-closed transport's `aclose()`; it consumes at most one scheduling
+    decision) and leaves every flag as it was. -/
+theorem C14_endpoint_second_close_prompt (s : Nat) (e : Bool) (ds ds2 : List Dec) (env : Env) :
+    (exec (endpointProg s e) env ds2 (run (endpointProg s e) ds).st).st = (run (endpointProg s e) ds).st ∧
+    ds2.length ≤ (exec (endpointProg s e) env ds2 (run (endpointProg s e) ds).st).ds.length + 1 := by
+  have hc := C14_endpoint_closes s e ds
+  generalize (run (endpointProg s e) ds).st = st1 at hc ⊢
+  have hs : ∀ (b : Bool), (suspend b env ds2 st1).st = st1 ∧ ds2.length ≤ (suspend b env ds2 st1).ds.length + 1 := by
+    intro b
+    unfold suspend
+    repeat' split
+    all_goals simp
+  simpa [endpointProg, innerClose, exec, hc] using hs true
+
+example : (exec (endpointProg 2 false) {} [.cancel, .ok] (run (endpointProg 2 false) [.ok, .cancel]).st).ds = [.ok] := by
+  decide +kernel
+
 /-- **TLS aclose** (first close, `standard_compatible` or not): the wrapped transport is closed and the closed event is
     set whether the close-notify exchange completes, fails, runs into the shutdown timeout or is cancelled at any
     suspension — of the exchange, of the forceful close, or of the final `transport.aclose()`. -/
